@@ -2,7 +2,7 @@
 virtual-register listing and the allocated listing on the symbolic machine)."""
 from __future__ import annotations
 
-from .. import comp, e1, gen, harness
+from .. import comp, e1, gen, harness, probes
 from . import base
 
 PROP = "C04"
@@ -54,6 +54,9 @@ def run(tier: str) -> int:
     for name, srcs in base.repo_sources():
         for vec in ({"inline_functions": False}, {}):
             items.append(("monitor", dict(name=name, sources=srcs, tier=tier, strict=False, shadow=True, opts=vec)))
+    for k, v in probes.call_probes() + probes.range_probes()[:12]:
+        for vec in vecs[:2]:
+            items.append(("monitor", dict(name=f"probe:{k}", sources=v, tier=tier, shadow=True, opts=vec)))
     press = []
     for k in (6, 10, 13, 15, 16, 17, 18, 20, 24):
         for inf in (False, True):
